@@ -24,12 +24,15 @@ def _specs() -> Dict[str, Dict[str, Any]]:
                    "one injected file fault; every loaded row is compared with a reference loader over json.loads of the "
                    "bytes on disk. distinct_nontrivial = number of distinct event-log digests among runs in which at "
                    "least one load returned frames that the oracle compared row by row")
+    from .profiles.symtab import HUGE_VOCAB as symtab_huge
     for pid in ("C01", "C02", "C12"):
         specs[pid] = {
             "id": pid, "stream": "loader", "profile": loader, "props": [pid], "level": "exploration",
             "batches": [
                 {"name": "fault-free", "args": {"faulty": False}, "runs": {"quick": 160, "thorough": 30000}},
                 {"name": "faults", "args": {"faulty": True}, "runs": {"quick": 80, "thorough": 15000}},
+                {"name": "hugevocab", "args": {"faulty": False, "overrides": dict(symtab_huge)},
+                 "runs": {"quick": 1 if pid == "C01" else 0, "thorough": 8 if pid == "C01" else 0}},
             ],
             "rule": loader_rule,
             "assumptions": GENERATOR_ASSUMPTIONS,
@@ -44,6 +47,8 @@ def _specs() -> Dict[str, Dict[str, Any]]:
             {"name": "history", "args": {"kind": "history"}, "runs": {"quick": 200, "thorough": 40000}},
             {"name": "decode", "args": {"kind": "decode"}, "runs": {"quick": 120, "thorough": 20000}},
             {"name": "env", "args": {"kind": "env"}, "runs": {"quick": 96, "thorough": 8000}},
+            # two ranks with 17,000 operator names of their own each: more than 32,768 symbols in the table
+            {"name": "hugevocab", "args": {"kind": "decode", "hugevocab": True}, "runs": {"quick": 1, "thorough": 8}},
         ],
         "rule": ("three kinds of simulated run. history: a seeded sequence of 2-10 symbol-table operations (add_symbols, "
                  "add_symbols_mp on a lock-step fork pool whose tape interleaves the workers' individual queue puts, clone, "
